@@ -64,7 +64,7 @@ class Constant(Terminal, Counted):
         return (
             self._count == other._count
             and self._ufl_domain == other._ufl_domain
-            and self._ufl_shape == self._ufl_shape
+            and self._ufl_shape == other._ufl_shape
         )
 
     def _ufl_signature_data_(self, renumbering):
